@@ -336,7 +336,8 @@ class ExprMixin(ExecBase):
                     consts = {}
                 if attr in consts:
                     return [(st, self.py_const(consts[attr]))]
-            if th.kind in ("class", "import", "modattr", "classattr"):
+            if th.kind in ("class", "import", "modattr", "classattr") or (th.kind == "builtin" and not self.spec):
+                # (a method of a builtin type, e.g. int.from_bytes, likewise: meaningful only through a call model)
                 # (also an attribute of a class attribute, e.g. ConsumerProtocol.ASSIGNMENT.decode: an opaque callable
                 # that only a call model of the contract can give a meaning)
                 return [(st, V(PYOBJ, PyThing("classattr", owner=th, name=attr)))]
@@ -571,6 +572,17 @@ class ExprMixin(ExecBase):
     # ----------------------------------------------------------------- operators
     def ev_BinOp(self, e, st):
         res = []
+        lit, cnt = (e.left, e.right) if isinstance(e.left, ast.List) else (e.right, e.left)
+        if isinstance(e.op, ast.Mult) and isinstance(lit, ast.List) and not self.spec:
+            # `[x, ...] * n` allocates n * len cells at once: beyond PY_SSIZE_T_MAX / 8 cells CPython raises MemoryError
+            # before anything else happens (well below that it may too: that depends on the machine and is not claimed)
+            for s, n in self.ev(cnt, st):
+                if n.ty != INT:
+                    raise Unsupported("sequence repetition by %s (line %s)" % (n.ty, self.cur_line))
+                self.oblige(s, "alloc", "sequence-repetition-cannot-raise-MemoryError",
+                            n.t * T.intval(max(len(lit.elts), 1)).t <= T.intval(2 ** 60).t, e.lineno, assume=True)
+            if all(isinstance(x, ast.Constant) and x.value is None for x in lit.elts):
+                raise Unsupported("a list of None placeholders (line %s)" % self.cur_line)
         for s, (a, b) in [(s, vs) for s, vs in self.ev_list([e.left, e.right], st)]:
             res.append((s, self.binop_v(s, e.op, a, b)))
         return res
